@@ -352,7 +352,30 @@ std::string pathFromUrl(const std::string &url)
  */
 std::string resolvePath(const std::string &filename, const std::string &base)
 {
-    return pathFromUrl(base) + filename;
+    // The same file reached along different routes has to resolve to the same
+    // path (it is the key of the library, and what import cycles are recognised
+    // by), so "." and "directory/.." segments are removed.
+    auto path = pathFromUrl(base) + filename;
+    std::vector<std::string> segments;
+    size_t start = 0;
+    while (start <= path.size()) {
+        auto end = path.find('/', start);
+        if (end == std::string::npos) {
+            end = path.size();
+        }
+        auto segment = path.substr(start, end - start);
+        if ((segment == "..") && !segments.empty() && !segments.back().empty() && (segments.back() != "..")) {
+            segments.pop_back();
+        } else if ((segment != ".") || (start == 0)) {
+            segments.push_back(segment);
+        }
+        start = end + 1;
+    }
+    std::string resolvedPath;
+    for (size_t i = 0; i < segments.size(); ++i) {
+        resolvedPath += ((i == 0) ? "" : "/") + segments[i];
+    }
+    return resolvedPath;
 }
 
 bool Importer::ImporterImpl::fetchModel(const ImportSourcePtr &importSource, const std::string &baseFile)
